@@ -55,14 +55,17 @@ public:
 template <int N>
 struct devicen_layout_t : layout<typename devicen_t<N>::type> {};
 
+// (the color space of a planar_pixel_iterator is devicen_t<N>::type: with the metafunction itself none of the
+// four overloads below could be instantiated)
+
 /// \ingroup ImageViewConstructors
 /// \brief from 2-channel planar data
 template <typename IC>
 inline
 auto planar_devicen_view(std::size_t width, std::size_t height, IC c0, IC c1, std::ptrdiff_t rowsize_in_bytes)
-    -> typename type_from_x_iterator<planar_pixel_iterator<IC,devicen_t<2>>>::view_t
+    -> typename type_from_x_iterator<planar_pixel_iterator<IC,typename devicen_t<2>::type>>::view_t
 {
-    using view_t = typename type_from_x_iterator<planar_pixel_iterator<IC,devicen_t<2>>>::view_t;
+    using view_t = typename type_from_x_iterator<planar_pixel_iterator<IC,typename devicen_t<2>::type>>::view_t;
     return view_t(width, height, typename view_t::locator(typename view_t::x_iterator(c0,c1), rowsize_in_bytes));
 }
 
@@ -71,9 +74,9 @@ auto planar_devicen_view(std::size_t width, std::size_t height, IC c0, IC c1, st
 template <typename IC>
 inline
 auto planar_devicen_view(std::size_t width, std::size_t height, IC c0, IC c1, IC c2, std::ptrdiff_t rowsize_in_bytes)
-    -> typename type_from_x_iterator<planar_pixel_iterator<IC,devicen_t<3>>>::view_t
+    -> typename type_from_x_iterator<planar_pixel_iterator<IC,typename devicen_t<3>::type>>::view_t
 {
-    using view_t = typename type_from_x_iterator<planar_pixel_iterator<IC,devicen_t<3>>>::view_t;
+    using view_t = typename type_from_x_iterator<planar_pixel_iterator<IC,typename devicen_t<3>::type>>::view_t;
     return view_t(width, height, typename view_t::locator(typename view_t::x_iterator(c0,c1,c2), rowsize_in_bytes));
 }
 
@@ -82,9 +85,9 @@ auto planar_devicen_view(std::size_t width, std::size_t height, IC c0, IC c1, IC
 template <typename IC>
 inline
 auto planar_devicen_view(std::size_t width, std::size_t height, IC c0, IC c1, IC c2, IC c3, std::ptrdiff_t rowsize_in_bytes)
-    -> typename type_from_x_iterator<planar_pixel_iterator<IC,devicen_t<4>>>::view_t
+    -> typename type_from_x_iterator<planar_pixel_iterator<IC,typename devicen_t<4>::type>>::view_t
 {
-    using view_t = typename type_from_x_iterator<planar_pixel_iterator<IC,devicen_t<4>>>::view_t;
+    using view_t = typename type_from_x_iterator<planar_pixel_iterator<IC,typename devicen_t<4>::type>>::view_t;
     return view_t(width, height, typename view_t::locator(typename view_t::x_iterator(c0,c1,c2,c3), rowsize_in_bytes));
 }
 
@@ -93,9 +96,9 @@ auto planar_devicen_view(std::size_t width, std::size_t height, IC c0, IC c1, IC
 template <typename IC>
 inline
 auto planar_devicen_view(std::size_t width, std::size_t height, IC c0, IC c1, IC c2, IC c3, IC c4, std::ptrdiff_t rowsize_in_bytes)
-    -> typename type_from_x_iterator<planar_pixel_iterator<IC,devicen_t<5>>>::view_t
+    -> typename type_from_x_iterator<planar_pixel_iterator<IC,typename devicen_t<5>::type>>::view_t
 {
-    using view_t = typename type_from_x_iterator<planar_pixel_iterator<IC,devicen_t<5>>>::view_t;
+    using view_t = typename type_from_x_iterator<planar_pixel_iterator<IC,typename devicen_t<5>::type>>::view_t;
     return view_t(width, height, typename view_t::locator(typename view_t::x_iterator(c0,c1,c2,c3,c4), rowsize_in_bytes));
 }
 
